@@ -23,11 +23,11 @@ QUERIES = [x / 2 for x in range(0, 8)] + [math.nextafter(float(k), math.inf) for
 DEVS = (0, 0.4, 0.5, 1)
 
 
-def _row(t, d, h=0.0):
+def _row(t, d, h=0.0, flag=8):
     import py_ballisticcalc as pb
     A, Z = pb.Unit.Radian(0), pb.Unit.Foot(0)
     return pb.TrajectoryData(float(t), pb.Unit.Meter(d), pb.Unit.FPS(1000), 1.0, pb.Unit.Meter(h), pb.Unit.Foot(0), A, Z, A,
-                             pb.Unit.Meter(d), A, 0.0, 0.0, pb.Unit.FootPound(0), pb.Unit.Pound(0), 8)
+                             pb.Unit.Meter(d), A, 0.0, 0.0, pb.Unit.FootPound(0), pb.Unit.Pound(0), flag)
 
 
 def _check_lookups(rows, queries, units, out, label):
@@ -143,23 +143,28 @@ def apex(cell):
     for up in itertools.combinations(range(1, 8), n_up):
         for down in itertools.combinations(range(1, 8), n_down):
             hs = list(up) + [9] + ([9] if plateau else []) + list(reversed(down))
-            rows = [_row(i, i, h) for i, h in enumerate(hs)]
-            n += 1
-            got = H.find_index_of_apex_in_points(rows)
-            got2 = H.find_index_of_apex_point(pb.HitResult(None, rows, True))
             ok = {peak, peak + 1} if plateau else {peak}
-            if got not in ok or got2 not in ok:
-                if len(out) < 3:
-                    out.append({'msg': f'apex of heights {hs} = {got}/{got2}, highest row is {sorted(ok)}', 'key': None})
+            # the highest row is the highest row, whatever event flags the rows carry (a sight-line crossing can come before the summit)
+            for fl in ({}, {1: 2}, {0: 1, 2: 2}, {1: 4}, {0: 3}, {len(hs) - 1: 2}):
+                rows = [_row(i, i, h, 8 | fl.get(i, 0)) for i, h in enumerate(hs)]
+                n += 1
+                got = H.find_index_of_apex_in_points(rows)
+                got2 = H.find_index_of_apex_point(pb.HitResult(None, rows, True))
+                if got not in ok or got2 not in ok:
+                    if len(out) < 3:
+                        out.append({'msg': f'apex of heights {hs} (event flags at {fl}) = {got}/{got2}, highest row is {sorted(ok)}', 'key': None})
     return {'v': out, 'n': 2 * n, 'nt': cell if L >= 3 else None, 'states': n, 'transitions': 2 * n, 'traces': n, 'obs': [peak == 0, peak == L - 1]}
 
 
 def real(cell):
     import py_ballisticcalc as pb
     from mc.world import make_shot
-    spec, rng_yd, step_yd = cell
+    spec, rng_yd, step_yd = cell[:3]
     shot = make_shot(spec)
-    hr = pb.Calculator().fire(shot, pb.Unit.Yard(rng_yd), pb.Unit.Yard(step_yd), extra_data=True)
+    calc0 = pb.Calculator()
+    if len(cell) > 3:
+        calc0.set_weapon_zero(shot, pb.Unit.Yard(cell[3]))
+    hr = calc0.fire(shot, pb.Unit.Yard(rng_yd), pb.Unit.Yard(step_yd), extra_data=True)
     rows = hr.trajectory
     out = []
     ds = [r.distance >> pb.Unit.Meter for r in rows]
@@ -241,7 +246,8 @@ def plan(tier):
                         cells.append([ts, ds])
     neg = [[], [0], [0, 1, 2], [1, 1, 3]]
     ap = [[0, 0, False]] + [[p, L, pl] for L in range(1, 8) for p in range(L) for pl in (False, True)]
-    rl = [[{'zero': 0.5, 'mv': 2750.0}, 600, 25], [{'zero': 3.0, 'look': 15.0}, 400, 10], [{'zero': 30.0, 'mv': 900.0, 'dm': 'G1', 'bc': 0.3}, 300, 20]]
+    rl = [[{'zero': 0.5, 'mv': 2750.0}, 600, 25], [{'zero': 3.0, 'look': 15.0}, 400, 10], [{'zero': 30.0, 'mv': 900.0, 'dm': 'G1', 'bc': 0.3}, 300, 20],
+          [{'look': 2.0, 'zero': 0.0}, 1000, 50, 100], [{'look': 5.0, 'zero': 0.0}, 1500, 100, 200]]      # zeroed on an upward sight line: crosses it while still climbing
     ru = []
     for L in (1, 2, 3) if tier == 'quick' else (1, 2, 3, 4):
         ls = nondecreasing(L)
